@@ -665,7 +665,12 @@ fn gen_c07(g: &mut G) {
         }
         return;
     }
-    let n = (g.nblocks(wmax, 3 * wmax.min(4) + 2)).max(1) * if kind == "cfb8" { 2 } else { 1 };
+    let mut n = (g.nblocks(wmax, 3 * wmax.min(4) + 2)).max(1) * if kind == "cfb8" { 2 } else { 1 };
+    if bs <= 8 && g.rng.chance(1, 80) {
+        // very many calls on one object (object 0 is driven one block per call): a per-object call counter, an
+        // epoch or a small cache would only wrap or fill up there
+        n = 257 + g.rng.below(44);
+    }
     let nobj = g.rng.range(2, 4);
     for j in 0..nobj {
         let o = format!("o{j}");
